@@ -19,7 +19,7 @@ STUB_WHOLE = ["goroutine scheduling (seeded scheduler)", "clock/timers (testing/
 
 register("C04", module="schedchecks", fn="case_c04", replay="replay_c04", binaries=("simplz",),
          cases={"quick": 40, "thorough": 1500}, budget={"quick": 240, "thorough": 3000}, level="exploration",
-         rule="case = generated DAG repo (diamonds, fan-in<=12, require/provide, subinclude built during parse) x request x 3(quick)/8(thorough) seeded schedules (policy random/pct/fifo/starve, threads 1-16, keep_going, clock stalls); evaluations = simulated plz invocations; distinct_nontrivial = distinct schedule-trace hashes among runs with >=2 simultaneously runnable tasks at >=10 steps",
+         rule="case = generated DAG repo (diamonds, fan-in<=12, require/provide, subinclude built during parse) x request x 3(quick)/8(thorough) seeded schedules (policy random/pct/fifo/starve, threads 1-16, keep_going, clock stalls); a third of the repositories with a subinclude are also run as `plz query deps` (builds only what parsing needs), 30% carry gentests and are run as `plz test`, 20% carry one failing command plus a consumer reached only through `deps` and run with --keep_going; evaluations = simulated plz invocations; distinct_nontrivial = distinct schedule-trace hashes among runs with >=2 simultaneously runnable tasks at >=10 steps",
          assumptions=["code between two yields of different tasks is atomic w.r.t. the scheduler (yields precede every chan/atomic/lock/FS operation of instrumented packages)",
                       "build commands are deterministic DSL scripts that log start/end to an action log", "clean plz-out per run"],
          components={"real": REAL_WHOLE, "stub": STUB_WHOLE})
